@@ -79,6 +79,7 @@ func (p *Prog) descriptorInfo(ct *CodecType) descInfo {
 		obj := info.Uses[x]
 		// find definition and field assignments of obj in order
 		found := false
+		condAssign := false
 		ast.Inspect(mr.Decl.Body, func(n ast.Node) bool {
 			switch s := n.(type) {
 			case *ast.AssignStmt:
@@ -103,7 +104,20 @@ func (p *Prog) descriptorInfo(ct *CodecType) descInfo {
 					}
 					if se, ok := lhs.(*ast.SelectorExpr); ok {
 						if id, ok := se.X.(*ast.Ident); ok && info.Uses[id] == obj {
-							applyKV(se.Sel.Name, rhs)
+							// only unconditional assignments (direct statements of the body) describe every value
+							top := false
+							for _, bs := range mr.Decl.Body.List {
+								if bs == ast.Stmt(s) {
+									top = true
+								}
+							}
+							if top {
+								applyKV(se.Sel.Name, rhs)
+							} else {
+								di.Why = "conditional assignment to " + se.Sel.Name
+								found = false
+								condAssign = true
+							}
 						}
 					}
 				}
@@ -121,7 +135,7 @@ func (p *Prog) descriptorInfo(ct *CodecType) descInfo {
 			}
 			return true
 		})
-		di.OK = found
+		di.OK = found && !condAssign
 	}
 	if !di.OK && di.Why == "" {
 		di.Why = "unrecognised shape of Descriptor()"
